@@ -15,6 +15,8 @@ elab "#audit_module " id:ident : command => do
   let names := env.header.moduleData[modIdx.toNat]!.constNames
   for n in names do
     if n.isInternal then continue
+    -- only declarations written in the source (auto-generated equation/splitter lemmas have no range)
+    if (← findDeclarationRanges? n).isNone then continue
     match env.find? n with
     | some (.thmInfo _) =>
       let axs ← liftCoreM (collectAxioms n)
